@@ -40,11 +40,11 @@ example : (sendChunks true [.bytes [1, 2], .str [], .str [233]]).written
 /-- The full round trip: whenever the caller supplies no framing header and the request is accepted,
 the permissive head parser followed by the strict de-framer (exactly one of Content-Length / chunked, or
 neither with an empty body part) recovers exactly the body's bytes (str as UTF-8; files from their
-start offset, read in `blocksize` blocks; iterables with empty pieces).  Hypotheses: a non-empty
-method (see C10), a positive blocksize, and no buffer with items wider than a byte
-(`C11_wide_buffer_witness`). -/
+start offset, read in `blocksize` blocks; iterables with empty pieces).  Hypotheses: a positive
+blocksize, and no buffer with items wider than a byte (`C11_wide_buffer_witness`); the method needs no
+hypothesis (`putrequest` refuses the empty method, see C10). -/
 theorem C11_payload_roundtrip (cfg : Cfg) (meth url : Str) (headers : List (Str × Str)) (body : Body) (ch : Bool)
-    (w : Bytes) (hm : meth ≠ [])
+    (w : Bytes)
     (h1 : (headerKeys headers).contains (lit "content-length") = false)
     (h2 : (headerKeys headers).contains (lit "transfer-encoding") = false)
     (hbs : 0 < cfg.blocksize) (hw : WellSizedBody body)
@@ -62,7 +62,7 @@ theorem C11_payload_roundtrip (cfg : Cfg) (meth url : Str) (headers : List (Str 
       subst h
       obtain ⟨hrl, hl⟩ := prepare_legal hp
       obtain ⟨kind, pay, hd, hpay⟩ := deframe_prepared hp h1 h2 hbs hw hok meth (urlOrSlash url)
-      exact ⟨_, kind, pay, strictParse_prepared p meth url hrl hl hm _, hd, hpay⟩
+      exact ⟨_, kind, pay, strictParse_prepared p meth url hrl hl _, hd, hpay⟩
 
 example : (serialize c11cfg (lit "PUT") (lit "/") [] (.file ⟨[1, 2, 3, 4, 5, 6], 1, .ok, .ok, false⟩) false).toOption.bind
     (fun w => (strictParse w).bind deframe) = some (.chunked, [2, 3, 4, 5, 6]) := by decide +kernel
